@@ -182,6 +182,7 @@ def user_species_block(rng, sites, cd=False):
         add("%sOH + SO4-2 + H+ = %sSO4- + H2O" % (st, st), round(rng.uniform(5.0, 9.0), 2), (0.5, -1.5, 0))
         add("%sOH + Na+ = %sOHNa+" % (st, st), round(rng.uniform(-2.0, 0.5), 2), (0, 1, 0))
         add("2%sOH + Cd+2 = (%sO)2Cd + 2H+" % (st, st), round(rng.uniform(-9.0, -4.0), 2), (-1.2, 1.2, 0))
+        add("%sOH + Fe+3 = %sOFe+2 + H+" % (st, st), round(rng.uniform(2.0, 6.0), 2), (-1, 3, 0))
     return "\n".join(ms + sp) + "\n"
 
 
@@ -189,13 +190,19 @@ CATIONS = ["Ca", "Mg", "Sr", "Ba", "Zn", "Cd", "Pb"]
 ANIONS = ["S(6)", "P", "F"]
 
 
-def solution_text(rng, num, pH, ionic, temp, sorb, water=1.0):
+REDOX_SORBATES = ("As", "Se", "Cr", "Fe")     # entered as element totals: the valence states are split by pe
+
+
+def solution_text(rng, num, pH, ionic, temp, sorb, water=1.0, pe=None):
     lines = ["SOLUTION %d" % num, " temp %s" % fnum(temp), " pH %s" % fnum(pH), " units mol/kgw"]
+    if pe is not None:
+        lines.append(" pe %s" % fnum(pe))
     if abs(water - 1.0) > 1e-12:
         lines.append(" water %s" % fnum(water))
-    salt = rng.choice([("Na", "Cl"), ("K", "Cl"), ("Na", "N(5)")])
+    # (no nitrate background with redox-active sorbates: N(5) would set the pe of the batch reaction)
+    salt = rng.choice([("Na", "Cl"), ("K", "Cl")] + ([] if pe is not None else [("Na", "N(5)")]))
     # the ion that balances the charge must come out positive: estimate the net charge of everything else
-    zest = {"S(6)": -2.0, "P": -1.0 if pH < 7.2 else -2.0, "F": -1.0}
+    zest = {"S(6)": -2.0, "P": -1.0 if pH < 7.2 else -2.0, "F": -1.0, "As": -1.0, "Se": -2.0, "Cr": -1.0, "Fe": 2.0}
     net = 10 ** (-pH) - 10 ** (pH - 14.0) + sum(zest.get(el, 2.0) * c for el, c in sorb)
     if net >= 0:
         lines.append(" %s %s" % (salt[0], fnum(ionic)))
@@ -211,12 +218,14 @@ def solution_text(rng, num, pH, ionic, temp, sorb, water=1.0):
 def make_case(rng, k, force=None):
     """one PHREEQC input + the meta data the checker needs. `force` pins the electrostatic model."""
     models = ["ddl", "ddl", "ddl", "ccm", "no_edl", "dl_bork", "dl_donnan", "dl_donnan_debye", "ddl_user", "ccm_user",
-              "no_edl_user", "dl_donnan_user", "cd_music", "ddl_phase", "ddl_kin", "dl_donnan_phase", "ccm_kin"]
+              "no_edl_user", "dl_donnan_user", "cd_music", "ddl_phase", "ddl_kin", "dl_donnan_phase", "ccm_kin",
+              "ddl_redox", "ccm_redox", "dl_donnan_redox", "ddl_redox"]
     model = force or models[k % len(models)] if k < 2 * len(models) else (force or rng.choice(models))
     user = model.endswith("_user") or model == "cd_music"
     related = "phase" if model.endswith("_phase") else "kin" if model.endswith("_kin") else None
-    base = model.replace("_user", "").replace("_phase", "").replace("_kin", "")
-    db = "phreeqc.dat" if user else rng.choice(["phreeqc.dat", "wateq4f.dat"])
+    redox = model.endswith("_redox")
+    base = model.replace("_user", "").replace("_phase", "").replace("_kin", "").replace("_redox", "")
+    db = "phreeqc.dat" if user else rng.choice(["wateq4f.dat", "minteq.v4.dat"]) if redox else rng.choice(["phreeqc.dat", "wateq4f.dat"])
     temp = 25.0 if rng.random() < 0.6 else round(rng.uniform(5.0, 60.0), 1)
     pH = round(rng.uniform(3.0, 11.0), 2)
     ionic = 10 ** rng.uniform(-4, 0)
@@ -225,6 +234,16 @@ def make_case(rng, k, force=None):
     sorb = [(el, 10 ** rng.uniform(-7, -2.5)) for el in rng.sample(pool, nsorb)]
     if user:
         sorb = [(el, c) for el, c in sorb if el in ("Ca", "Zn", "Cd", "S(6)", "Mg")]
+        if rng.random() < 0.5:
+            sorb.append(("Fe", 10 ** rng.uniform(-7, -4)))     # Fe+3 (secondary master of Fe) sorbs: e- in the rewritten reaction
+    if redox:
+        # sorbates in a NON-primary redox state (arsenite, selenite, Cr(III)): entered as element totals at moderate pe, so that
+        # in the batch reaction the engine rewrites their surface reactions with e-
+        rs = ["As"] + [el for el in (["Se", "Cr"] if db == "minteq.v4.dat" else ["Se"]) if rng.random() < 0.5]
+        sorb = [(el, c) for el, c in sorb if el in CATIONS][:2] + [(el, 10 ** rng.uniform(-7, -3.5)) for el in rs]
+        ionic = max(ionic, 1e-3)
+        sorb = [(el, min(c, ionic * 0.1)) for el, c in sorb]
+    pe = round(rng.uniform(0.0, 9.0), 2) if any(el in REDOX_SORBATES for el, c in sorb) else None
     water = 1.0 if rng.random() < 0.75 else round(rng.uniform(0.2, 3.0), 3)
     text = ""
     meta = {"model": base, "db": db, "user": user, "surfaces": [], "temp": temp}
@@ -233,7 +252,7 @@ def make_case(rng, k, force=None):
         blk = user_species_block(rng, sites, cd=(base == "cd_music"))
         text += blk
         meta["user_block"] = blk
-    text += solution_text(rng, 1, pH, ionic, temp, sorb, water)
+    text += solution_text(rng, 1, pH, ionic, temp, sorb, water, pe)
     # --- the surface
     area = round(10 ** rng.uniform(1, 3), 1)
     grams = round(10 ** rng.uniform(-2, 1), 4)
@@ -309,7 +328,8 @@ def make_case(rng, k, force=None):
     # --- batch reaction with a second solution (pH free)
     pH2 = round(rng.uniform(3.0, 11.0), 2)
     sorb2 = [(el, c * 10 ** rng.uniform(-1, 1)) for el, c in sorb]
-    text += solution_text(rng, 2, pH2, ionic * 10 ** rng.uniform(-0.5, 0.5), temp, sorb2, water)
+    text += solution_text(rng, 2, pH2, ionic * 10 ** rng.uniform(-0.5, 0.5), temp, sorb2, water,
+                          None if pe is None else round(rng.uniform(0.0, 9.0), 2))
     text += "END\nUSE solution 2\nUSE surface 1\n"
     if related == "phase":
         text += "USE equilibrium_phases 1\n"
